@@ -309,6 +309,9 @@ func evalStr(frag string, e Env) (string, bool) {
 	if strings.HasPrefix(frag, "w") {
 		return e.S1 + "!", true
 	}
+	if len(frag) >= 2 && strings.HasPrefix(frag, `"`) && strings.HasSuffix(frag, `"`) && !strings.Contains(frag, `\`) {
+		return frag[1 : len(frag)-1], true // a Go string literal without escapes
+	}
 	if strings.HasPrefix(frag, "fe1(") || strings.HasPrefix(frag, "fe2(") {
 		inner := frag[4 : len(frag)-1]
 		return evalStr(inner, e)
